@@ -1529,21 +1529,27 @@ func (c *Compiler) compileRepeatMin(sub *syntax.Regexp, minCount int, nonGreedy 
 		return c.compileStar(sub, nonGreedy)
 	}
 
-	// Concatenate minCount copies + star
+	// a{m,} = (m-1 copies of a) followed by a+, exactly as regexp/syntax
+	// simplifies it. (m copies followed by a* accepts the same strings but, when
+	// a can match empty, runs one more iteration than regexp does and reports
+	// that empty iteration in the capture groups: ((\n)?){2,} on "\n\n".)
 	var subs []*syntax.Regexp
-	for i := 0; i < minCount; i++ {
+	for i := 0; i < minCount-1; i++ {
 		subs = append(subs, sub)
 	}
-	// Create synthetic star with correct NonGreedy flag
-	starFlags := syntax.Flags(0)
+	// Create synthetic plus with correct NonGreedy flag
+	plusFlags := syntax.Flags(0)
 	if nonGreedy {
-		starFlags |= syntax.NonGreedy
+		plusFlags |= syntax.NonGreedy
 	}
 	subs = append(subs, &syntax.Regexp{
-		Op:    syntax.OpStar,
-		Flags: starFlags,
+		Op:    syntax.OpPlus,
+		Flags: plusFlags,
 		Sub:   []*syntax.Regexp{sub},
 	})
+	if len(subs) == 1 {
+		return c.compileRegexp(subs[0])
+	}
 	return c.compileConcat(subs)
 }
 
